@@ -15,13 +15,12 @@ import (
 	"runtime"
 	"sort"
 	"strings"
-	"sync"
 	"time"
 
 	"go.uber.org/cff/verifh/internal/proggen"
 	"go.uber.org/cff/verifh/internal/progoracle"
-	"go.uber.org/cff/verifh/internal/progsrc"
 	ps "go.uber.org/cff/verifh/internal/progspec"
+	"go.uber.org/cff/verifh/internal/progsrc"
 )
 
 type config struct {
@@ -472,6 +471,9 @@ func coverage(p *ps.Program, forms, shapes, opts map[string]int) {
 	if p.Generic {
 		opts["generic"]++
 	}
+	if p.Site != "" && p.Site != "assign" {
+		opts["site-"+p.Site]++
+	}
 	if p.TyAlias {
 		opts["tyalias"]++
 	}
@@ -565,5 +567,3 @@ func firstLine(s string) string {
 	}
 	return ""
 }
-
-var _ sync.Mutex
